@@ -1,6 +1,6 @@
 """developer tool: re-run every check against every stored seeded change (/verif/seeded/*/patch.diff), refresh each meta.json
 (`checks_fired`, `caught`) and print the table used in DESIGN.md.  Patches are applied to a throw-away export of /repo HEAD under /tmp
-(removed afterwards); /repo itself is never touched.  usage: python tools/seeded_regress.py [--table]"""
+(removed afterwards); /repo itself is never touched.  usage: python tools/seeded_regress.py [--table] [name substring ...]"""
 import concurrent.futures as cf
 import json
 import pathlib
@@ -52,7 +52,8 @@ def one(seed_dir):
 
 
 def main():
-    seeds = sorted(p for p in (ROOT / "seeded").iterdir() if (p / "patch.diff").exists())
+    flt = [a for a in sys.argv[1:] if not a.startswith("--")]
+    seeds = sorted(p for p in (ROOT / "seeded").iterdir() if (p / "patch.diff").exists() and (not flt or any(f in p.name for f in flt)))
     with cf.ProcessPoolExecutor(12) as ex:
         results = list(ex.map(one, seeds))
     rows = []
